@@ -1516,7 +1516,10 @@ def _call(o, method, argid):
         x = _get_or_call(o, first)
         if inspect.isgenerator(x) or hasattr(x, "__next__"):
             list(x)
-        return _get_or_call(o, second)
+        r = _get_or_call(o, second)
+        if second == "extract_sequence" and not isinstance(r, Sequence):
+            return _Verbatim("ok illformed extract_sequence-returned-" + type(r).__name__)      # F-C10a regression
+        return r
     if argid == "prop":
         return getattr(o, method)
     if method in DUNDERS:
